@@ -7,13 +7,13 @@ CLOSED = ["Noh", "Noh2", "Noh2Cog"] + COG
 PATTERNS = [("SCS", "ul>ur"), ("RCR", "ul<ur")] + [(p, u) for p in ("SCR", "RCS") for u in ("ul<ur", "ul=ur", "ul>ur")]
 
 
-EXTRA = {"EHEP": "ehep", "EPpiston": "eppiston", "Mader": "mader", "BBNoh": "bbnoh"}
+EXTRA = {"EHEP": "ehep", "EPpiston": "eppiston", "Mader": "mader", "BBNoh": "bbnoh", "SDRZ": "sdrz"}
 
 
 def fams(groups, closed=True, riemann=True, only=None, sedov=True, extra=()):
     d = {}
     for f in extra:
-        d[f] = (EXTRA[f], groups)
+        d[f] = (EXTRA[f], set(groups) | ({"RZ"} if f == "SDRZ" else set()))
     if sedov:
         d["Sedov"] = ("sedov", groups)
     if closed:
